@@ -334,6 +334,10 @@ func search(t *testing.T, spec *Spec) {
 		}
 		o := spec.Run(t, prop, sc, simrt.Config{Seed: seed})
 		st.Runs++
+		cls1 := ""
+		if o.V != nil {
+			cls1 = o.V.Class
+		}
 		if o.V != nil && isKnown(known, o.V) {
 			st.KnownHits++
 			o.V = nil
@@ -354,7 +358,11 @@ func search(t *testing.T, spec *Spec) {
 			sc2 := spec.Gen(prop, tier, rand.New(rand.NewPCG(seed, 1)), idx)
 			o2 := spec.Run(t, prop, sc2, simrt.Config{Seed: seed})
 			st.Reruns++
-			if LogHash(o.Res.Events) != LogHash(o2.Res.Events) || o2.V != nil {
+			cls2 := ""
+			if o2.V != nil {
+				cls2 = o2.V.Class
+			}
+			if LogHash(o.Res.Events) != LogHash(o2.Res.Events) || cls1 != cls2 {
 				st.Mismatches++
 				if len(st.MismatchNotes) < 3 {
 					st.MismatchNotes = append(st.MismatchNotes, fmt.Sprintf("run %d seed %d", idx, seed))
